@@ -115,6 +115,14 @@ def handle (j : Json) : R Json := do
     let (n, inits) ← parseNodeInit t (← fld j "node")
     let r1 ← parseReport (← fld j "report1")
     let r2 ← parseReport (← fld j "report2")
+    -- "is strict JSON": the text the node would send must parse as JSON (NaN / Infinity tokens do not)
+    match j.getObjVal? "text" with
+    | .error _ => pure ()
+    | .ok t =>
+      let strict := match t with
+        | .str s => (Json.parse s).isOk
+        | _ => false
+      if !strict then return Json.mkObj [("bad", jarr [Json.str "report-not-strict-json", jnat 0, Json.str ""])]
     if !(stableB r1 r2) then return Json.mkObj [("bad", jarr [Json.str "unstable", jnat 0, Json.str ""])]
     if !(listsExactlyB predef n r1) then return Json.mkObj [("bad", jarr [Json.str "lists", jnat 0, Json.str ""])]
     -- interface class and features against the class chain of the implementing class
